@@ -9,8 +9,11 @@ import (
 )
 
 func init() {
-	props["C09"] = c09
-	floors["C09"] = map[string]int{"C09.R1": 3, "C09.R2": 13, "C09.R3": 10, "C09.R4": 8, "C09.R5": 8}
+	props["C09"] = func(r *Report) {
+		c09(r)
+		r.Guard("C09.R6", "every lock taken is released on every exit: flowMu and the relay's other mutexes", func() { lockPairRule(r, "h2") })
+	}
+	floors["C09"] = map[string]int{"C09.R1": 3, "C09.R2": 13, "C09.R3": 10, "C09.R4": 8, "C09.R5": 8, "C09.R6": 1}
 }
 
 // anyFlowMu reports whether some lock whose path ends in ".flowMu" is held.
@@ -535,7 +538,7 @@ func frameSizeRules(r *Report) {
 		if f == nil {
 			continue
 		}
-		loads := plainCalls(f, "sync/atomic.LoadUint32")
+		loads := plainCalls(f, "sync/atomic.LoadUint32", "sync/atomic.LoadInt32", "sync/atomic.LoadUint64", "sync/atomic.LoadInt64", "(*sync/atomic.Uint32).Load", "(*sync/atomic.Int32).Load", "(*sync/atomic.Uint64).Load", "(*sync/atomic.Int64).Load")
 		var max ssa.Value
 		for _, l := range loads {
 			if fa, ok := l.Call.Args[0].(*ssa.FieldAddr); ok && fieldObj(fa).Name() == "maxFrameSize" {
@@ -628,7 +631,7 @@ func frameSizeRules(r *Report) {
 	}
 	um := r.Use("h2", "relay.updateMaxFrameSize")
 	if um != nil {
-		r.Decide("lookup", "(*M/h2.relay).updateMaxFrameSize stores atomically", len(plainCalls(um, "sync/atomic.StoreUint32")) == 1, "atomic.StoreUint32", "the limit is written non-atomically while builders read it", um.Pos())
+		r.Decide("lookup", "(*M/h2.relay).updateMaxFrameSize stores atomically", len(plainCalls(um, "sync/atomic.StoreUint32", "sync/atomic.StoreInt32", "sync/atomic.StoreUint64", "sync/atomic.StoreInt64", "(*sync/atomic.Uint32).Store", "(*sync/atomic.Int32).Store", "(*sync/atomic.Uint64).Store", "(*sync/atomic.Int64).Store")) == 1, "atomic store", "the limit is written non-atomically while builders read it", um.Pos())
 	}
 }
 
